@@ -32,6 +32,7 @@ class YieldInjector:
         self._hash = hashlib.blake2b(digest_size=8)
         self._installed = False
         self.max_sleep = 0.0002
+        self.slow = ()                # thread-name fragments whose yields are long sleeps (bias a race)
 
     def install(self):
         if self._installed:
@@ -51,8 +52,9 @@ class YieldInjector:
         mon.free_tool_id(TOOL)
         self._installed = False
 
-    def begin(self, seed, p=0.3, participants=None):
+    def begin(self, seed, p=0.3, participants=None, slow=()):
         with self.lock:
+            self.slow = tuple(slow)
             self.seed = seed
             self.p = p
             self.participants = set(participants) if participants is not None else None
@@ -96,6 +98,8 @@ class YieldInjector:
                 idx = self.order.index(ident)
             rng = loc.rng = random.Random(f"{self.seed}/{idx}")
             loc.idx = idx
+            name = threading.current_thread().name
+            loc.slow = any(f in name for f in self.slow)
         with self.lock:
             self.events += 1
             self._hash.update(b"%d:%d;" % (loc.idx, lineno))
@@ -103,7 +107,9 @@ class YieldInjector:
         if r < self.p:
             with self.lock:
                 self.yields += 1
-            if r < self.p * 0.6:
+            if loc.slow:
+                time.sleep(rng.random() * self.max_sleep * 25)
+            elif r < self.p * 0.6:
                 time.sleep(0)
             else:
                 time.sleep(rng.random() * self.max_sleep)
